@@ -8,6 +8,7 @@ Does not decide: monotonicity / normalisation numerically; the tree's integer lo
 """
 from __future__ import annotations
 import ast
+import copy
 import math
 from fractions import Fraction
 from ..model import qual
@@ -20,7 +21,7 @@ from ..report import AnalysisError, Ob
 from ..term import Resolver, pmatch, find_all, abstract, anf_of
 
 REL = "inference/pdf/kde.py"
-FLOORS = {"sample-stays-sorted": 8, "every-group-stored": 2, "float-arithmetic": 1, "region-provenance": 2, "kernel-form": 2, "region-tables": 3, "truncation-bound": 1, "units": 3, "units-result-types": 3}
+FLOORS = {"order-restored": 2, "sample-stays-sorted": 8, "every-group-stored": 2, "float-arithmetic": 1, "region-provenance": 2, "kernel-form": 2, "region-tables": 3, "truncation-bound": 1, "units": 3, "units-result-types": 3}
 
 EXPECTED = {"__call__": "Lin(-1,0)", "cdf": "Lin(0,0)", "attr:h": "Lin(1,0)", "attr:mode": "Lin(1,1)"}
 
@@ -60,6 +61,86 @@ def units_obligations(prog, rel, cname, configs, public, expected, rule_prefix="
 
 def _tuple_match(got, want):
     return repr(got).replace("c)", ")").replace("c,", ",") == want
+
+
+def _perm_names(fn):
+    """Locals bound to an argsort (a sorting permutation)."""
+    out = set()
+    for st in ast.walk(fn):
+        if isinstance(st, ast.Assign) and len(st.targets) == 1 and isinstance(st.targets[0], ast.Name) and isinstance(st.value, ast.Call):
+            f = st.value.func
+            if (isinstance(f, ast.Name) and f.id == "argsort") or (isinstance(f, ast.Attribute) and f.attr == "argsort"):
+                out.add(st.targets[0].id)
+    return out
+
+
+def _post_factor(prog, ci, fn, loop, res):
+    """Value (elementwise, as a function of RES = the array filled by the region loop) of what the function returns; indexing by a
+    sorting permutation and storing through one are value-preserving re-orderings and are looked through."""
+    perms = _perm_names(fn)
+    after = fn.body[fn.body.index(loop) + 1:]
+
+    class Look(ast.NodeTransformer):
+        def visit_Subscript(self, n):
+            self.generic_visit(n)
+            if isinstance(n.slice, ast.Name) and n.slice.id in perms and isinstance(n.ctx, ast.Load):
+                return n.value
+            if isinstance(n.slice, ast.Call) and U(n.slice.func).split(".")[-1] == "argsort":
+                return n.value
+            return n
+    stmts = []
+    for st in after:
+        st = copy.deepcopy(st)
+        if isinstance(st, ast.Assign) and len(st.targets) == 1 and isinstance(st.targets[0], ast.Subscript) \
+                and isinstance(st.targets[0].slice, ast.Name) and st.targets[0].slice.id in perms and isinstance(st.targets[0].value, ast.Name):
+            st = ast.copy_location(ast.Assign(targets=[ast.Name(id=st.targets[0].value.id, ctx=ast.Store())], value=st.value), st)
+        stmts.append(ast.fix_missing_locations(Look().visit(st)))
+    ex = Expander(prog, ci.module, ci)
+    ex.opaque_self_attrs = {"norm"}
+    ex.on_if = lambda node, env: "skip"
+    env = {res: R.sym("RES")}
+    try:
+        for st in stmts:
+            if isinstance(st, ast.Return):
+                v = st.value
+                while isinstance(v, ast.IfExp):
+                    v = v.body
+                # `values[0]` (the single-point form of the result) is the same value, element-wise
+                while isinstance(v, ast.Subscript) and isinstance(v.slice, ast.Constant) and v.slice.value == 0:
+                    v = v.value
+                return ex.need_r(ex.eval(v, env))
+            ex.exec_stmt(st, env)
+    except Unsupported:
+        return None
+    return None
+
+
+def _order_restored(prog, ci, fn):
+    """If the query points are sorted first (x = x[order]), the values must be handed back in the caller's order: stored through
+    the same permutation (`out[order] = values`) or indexed by its inverse (`values[argsort(order)]`).  Indexing the values by the
+    sorting permutation itself applies it a second time."""
+    xp = fn.args.args[1].arg
+    perms = _perm_names(fn)
+    used = [p_ for p_ in perms if any(isinstance(st, ast.Assign) and isinstance(st.targets[0], ast.Name) and st.targets[0].id == xp
+                                      and isinstance(st.value, ast.Subscript) and U(st.value.slice) == p_ for st in ast.walk(fn))]
+    if not used:
+        return struct_ob("order-restored", qual(ci, fn), True, "", REL, fn.lineno, slots={"sorted_first": False})
+    p_ = used[0]
+    stores = [st for st in ast.walk(fn) if isinstance(st, ast.Assign) and isinstance(st.targets[0], ast.Subscript)
+              and U(st.targets[0].slice) == p_]
+    inv = [n for n in ast.walk(fn) if isinstance(n, ast.Subscript) and isinstance(n.ctx, ast.Load)
+           and U(n.slice) in (f"argsort({p_})", f"{p_}.argsort()")]
+    again = [n for n in ast.walk(fn) if isinstance(n, ast.Subscript) and isinstance(n.ctx, ast.Load) and U(n.slice) == p_
+             and U(n.value) != xp]
+    ok = bool(stores or inv) and not again
+    msg = ""
+    if again:
+        msg = (f"the query points are sorted with `{p_}` and the values are then read back as `{U(again[0])}`: that applies the sorting "
+               f"permutation a second time instead of its inverse, so every value is returned against another point (except for "
+               f"already sorted or exactly reversed input)")
+    elif not ok:
+        msg = f"the query points are sorted with `{p_}` but the values are never put back in the caller's order"
+    return struct_ob("order-restored", qual(ci, fn), ok, msg, REL, fn.lineno, slots={"sorted_first": True, "permutation": p_})
 
 
 EMPTY = ("_a.start == _a.stop", "_a.stop == _a.start", "_a.stop <= _a.start", "_a.start >= _a.stop", "_a.stop - _a.start == 0",
@@ -129,6 +210,18 @@ def _every_group_stored(prog, ci, fn):
             b = pmatch(t, pt)
             if b is not None:
                 break
+        if b is None:
+            # emptiness of the kept-sample window itself: `w.size == 0`, `len(w) == 0`, `not w.size` (and the negations)
+            wpats_e = ("_w.size == 0", "len(_w) == 0", "not _w.size", "_w.size < 1", "_w.shape[0] == 0")
+            wpats_n = ("_w.size != 0", "_w.size > 0", "len(_w) > 0", "len(_w) != 0", "_w.size", "_w.size >= 1")
+            for pt in (wpats_e if skip_when_true else wpats_n):
+                bw = pmatch(t, pt)
+                if bw is not None:
+                    wn = ast.parse(bw["_w"], mode="eval").body
+                    if isinstance(wn, ast.Subscript) and U(wn.value) == "self.sample":
+                        sl_ = wn.slice.elts[-1] if isinstance(wn.slice, ast.Tuple) else wn.slice
+                        b = {"_a": U(sl_)}
+                        break
         if b is None or b["_a"] not in kept:
             raise AnalysisError(f"every-group-stored: the region loop of GaussianKDE.{fn.name} skips its store under `{U(test)}`, which is not "
                                 f"recognised as `no kept sample` - the skipped value cannot be decided")
@@ -196,11 +289,17 @@ def run(prog, tier):
             norm = anf.subst(norm, {a: N for a in norm.all_atoms() if a[0] == "sym" and a[1].startswith("size(")})
             got = got * norm if isinstance(got, R) else None
             want = anf.sum_(anf.exp_(-(dx * dx) / (2 * h * h)) / (N * h * anf.sqrt_(2 * anf.PI)), is_arr, R.sym("n_kept"), "ax1")
-            aug = [s for s in fn.body if isinstance(s, ast.AugAssign) and U(s) == "pdf *= self.norm"]
             o = formula_ob("kernel-form", qual(ci, fn), got, want, REL, fn.lineno,
                            what="density = sum over kept samples of exp(-(x-s)^2 / 2h^2) / (N h sqrt(2 pi))")
-            if o.ok and len(aug) != 1:
-                o = struct_ob("kernel-form", qual(ci, fn), False, "the kernel sums are not multiplied by self.norm exactly once", REL, fn.lineno)
+            if o.ok:
+                # what is done to the array of kernel sums between the loop and the return: multiplied by self.norm exactly once
+                # (as values - re-ordering of the entries is the business of the order rule below)
+                fac = _post_factor(prog, ci, fn, loop[0], res_key.split("[")[0])
+                if fac is None or not fac.eq(R.sym("RES") * guard(lambda: Expander(prog, ci.module, ci).self_attr("norm", {}))) \
+                        and not fac.eq(R.sym("RES") * R.sym("self.norm")):
+                    o = struct_ob("kernel-form", qual(ci, fn), False,
+                                  f"between the region loop and the return the kernel sums must be multiplied by self.norm exactly once; they "
+                                  f"become {fac}", REL, fn.lineno)
             obs.append(o)
         else:
             got = env.get(res_key)
@@ -284,7 +383,11 @@ def run(prog, tier):
             it = rm.term(loops[0].iter, loops[0])
             okl = pmatch(it, f"zip(self.tree.region_groups({xp})[0], self.tree.region_groups({xp})[1])") is not None
             body_terms = [rm.term(st.value, st) for st in ast.walk(loops[0]) if isinstance(st, ast.Assign)]
-            okl = okl and any(find_all(t, f"{xp}[{gname}, None] - self.sample[None, self.slices[{rname}]]") for t in body_terms)
+            okl = okl and any(find_all(t, pt) for t in body_terms for pt in (
+                f"{xp}[{gname}, None] - self.sample[None, self.slices[{rname}]]",
+                f"{xp}[{gname}, None] - self.sample[self.slices[{rname}]][None, :]",          # the kept window taken first (1-D sample)
+                f"{xp}[{gname}][:, None] - self.sample[None, self.slices[{rname}]]",
+                f"{xp}[{gname}][:, None] - self.sample[self.slices[{rname}]][None, :]"))
         both.append(okl)
     obs.append(struct_ob("region-tables", f"{ci.module.name}.GaussianKDE[pdf/cdf siblings]", all(both),
                          "pdf and cdf must group the query points with the same tree look-up and use the same slice table", REL,
@@ -371,6 +474,7 @@ def run(prog, tier):
 
     for mname in ("__call__", "cdf"):
         obs.append(_every_group_stored(prog, ci, ci.methods[mname]))
+        obs.append(_order_restored(prog, ci, ci.methods[mname]))
 
     obs.extend(memo_obligations(prog, "cache-key", [prog.cls("GaussianKDE")]))
 
